@@ -11,6 +11,9 @@ use serde::{Deserialize, Serialize};
 pub enum Case {
     Text { family: u8, src: String },
     Toks { family: u8, ts: Vec<Tok>, seps: Vec<u8> },
+    /// compile `base` (a complete expression without comments) first, then the same text with a stray character that is not
+    /// CEL whitespace put in front of or behind it: whatever the first compile left behind, the second text is not an expression
+    Warm { base: String, prefix: String, suffix: String },
 }
 
 pub enum Compiled {
@@ -155,10 +158,25 @@ pub fn cap_nesting(src: &str) -> String {
         .collect()
 }
 
-const FAMILIES: [&str; 8] = ["random-chars", "random-tokens", "valid-expression", "token-mutation", "char-truncation", "single-char", "one-token", "two-tokens"];
+const FAMILIES: [&str; 10] = ["random-chars", "random-tokens", "valid-expression", "token-mutation", "char-truncation", "single-char", "one-token", "two-tokens", "macro-misuse", "fixed"];
 
 pub fn check(c: &Case) -> Outcome {
     match c {
+        Case::Warm { base, prefix, suffix } => {
+            let accepted = match basic(base) {
+                Ok(a) => a,
+                Err(e) => return fail(e),
+            };
+            if !accepted {
+                return Outcome::Skip("base-text-not-accepted");
+            }
+            let src = format!("{prefix}{base}{suffix}");
+            match basic(&src) {
+                Err(e) => fail(e),
+                Ok(true) => fail(format!("{src:?} was accepted as a program (right after {base:?} had been compiled): the stray character in front of / behind the expression belongs to no token and is not CEL whitespace")),
+                Ok(false) => pass_n(true, vec!["stray-character-around-a-compiled-expression", "rejected"]),
+            }
+        }
         Case::Text { family, src } => {
             let fam = FAMILIES[*family as usize];
             let accepted = match basic(src) {
@@ -254,6 +272,29 @@ fn gen_chars(u: &mut Chooser) -> String {
     s
 }
 
+/// macro calls whose arguments are themselves invalid macro uses or undecodable literals (errors inside errors)
+fn gen_macro_misuse(u: &mut Chooser, depth: usize) -> String {
+    let leaf = |u: &mut Chooser| -> String { u.pick(&["a", "1", "a.b", "b'\\u0041'", "'\\ud800'", "x", "true", "[1, 2]", "a.b.c", "'s'", "b'\\U00000041'", "'\\U00110000'", "-1", "f(a)", "{}"]).to_string() };
+    if depth == 0 {
+        return leaf(u);
+    }
+    let g = |u: &mut Chooser| gen_macro_misuse(u, depth - 1);
+    match u.below(12) {
+        0 => format!("has({})", g(u)),
+        1 => format!("has({}.f)", g(u)),
+        2 => format!("{}.all({}, {})", g(u), g(u), g(u)),
+        3 => format!("{}.exists({}, {})", g(u), g(u), g(u)),
+        4 => format!("{}.exists_one({}, {})", g(u), g(u), g(u)),
+        5 => format!("{}.map({}, {})", g(u), g(u), g(u)),
+        6 => format!("{}.map({}, {}, {})", g(u), g(u), g(u), g(u)),
+        7 => format!("{}.filter({}, {})", g(u), g(u), g(u)),
+        8 => format!("{}.all({})", g(u), g(u)),
+        9 => format!("[{}, {}]", g(u), g(u)),
+        10 => format!("{} + {}", g(u), g(u)),
+        _ => leaf(u),
+    }
+}
+
 fn valid_tokens(u: &mut Chooser, pool: &Pool) -> Vec<Tok> {
     let depth = 1 + u.below(6);
     let e = gen_untyped(u, depth, pool);
@@ -289,7 +330,7 @@ fn cap_tokens(mut ts: Vec<Tok>) -> Vec<Tok> {
 pub fn run(r: &mut Runner) {
     r.rule = "cases: UTF-8 sources <= 4 KiB with bracket nesting <= 32: (a) random characters (punctuation, quotes, backslashes, digits, letters, every whitespace kind, control and non-ASCII \
               characters; log-uniform length), (b) random token lists (valid and invalid tokens, <= 64 tokens), (c) grammar-generated valid expressions rendered with random whitespace / newlines / comments, \
-              (d) one token-level insert / delete / replace / truncate of (c) and character-level truncations; exhaustively the empty string, every single ASCII character, every token alone and every two-token sequence. \
+              (d) one token-level insert / delete / replace / truncate of (c) and character-level truncations, (e) macro calls whose arguments are invalid macro uses or undecodable literals, (f) a valid expression compiled first and then again with a stray non-whitespace character in front of / behind it; multi-line triple-quoted literals with late decoding errors; exhaustively the empty string, every single ASCII character, every token alone and every two-token sequence. \
               Oracle: no panic / abort; Ok xor a non-empty error list; every error renders to non-empty text with a position not beyond the source; Ok implies that the token sequence is derivable \
               from CEL.g4's start rule (independent token-level recogniser) and satisfies the cheap necessary conditions. Non-trivial: rejected, or accepted with >= 3 tokens; distinct by source."
         .into();
@@ -305,6 +346,22 @@ pub fn run(r: &mut Runner) {
     }
     for s in [" ", "\n", "\t\r\n", "//", "// c", "ä", "1 +", "f(1,", "\"abc", "{1:", "@", "1 2", "a b", "(1", "1)", "[", "a.", "a ? b", "a ? b :", "'''", "b'", "1..2", "0x", "1e", "1u u", "a..b", "a.(b)", "a[", "x.y(", "!", "-", "!-a", "-!a", "in", "a in", "?.", "a.?b", "a[?0]", "{?a: 1}", "T{?f: 1}", "[?a]", "[,]", "{,}", "T{,}", "a.b{}", ".a", ".a()", "..a", "a.b.c{x: 1}.d", "`a`", "a.`b c`", "has(a)", "x.map(1, 2)", "x.map(a.b, 2)", "9223372036854775808", "-9223372036854775809", "1e999", "'\\q'", "'\\400'", "'\\ud800'", "b'\\u0041'", "\u{feff}1"] {
         fixed.push(Case::Text { family: 5, src: s.to_string() });
+    }
+    // multi-line literals whose decoding fails late: the reported position must still lie inside the source
+    for q in ["'''", "\"\"\""] {
+        for pre in ["", "b", "B"] {
+            for lines in ["first\n", "a\n\nb\n", "\r\n", "x\n    "] {
+                for esc in ["\\ud800", "\\U00110000", "\\u0041", "\\UFFFFFFFF", "\\udfff tail"] {
+                    let l = format!("{pre}{q}{lines}second line {esc}{q}");
+                    fixed.push(Case::Text { family: 9, src: l.clone() });
+                    fixed.push(Case::Text { family: 9, src: format!("1 +\n {l}") });
+                    fixed.push(Case::Text { family: 9, src: format!("[{l},\n{l}]") });
+                }
+            }
+        }
+    }
+    for s in ["has(has(a))", "[1, 2].all(b'\\u0041', true)", "x.exists(has(y), true)", "has(x.all(1, true))", "x.map(has(1), has(2), has(3))"] {
+        fixed.push(Case::Text { family: 9, src: s.to_string() });
     }
     r.sweep("fixed-and-single-characters", fixed, check);
     let alpha = token_alphabet();
@@ -383,6 +440,32 @@ pub fn run(r: &mut Runner) {
                 cut -= 1;
             }
             Case::Text { family: 4, src: src[..cut].to_string() }
+        },
+        check,
+    );
+    r.random("macro-misuse", 60, n / 4, |u| { let d = 1 + u.below(3); Case::Text { family: 8, src: gen_macro_misuse(u, d) } }, check);
+    r.random(
+        "stray-character-around-a-compiled-expression",
+        700,
+        n / 4,
+        |u| {
+            let ts = cap_tokens(valid_tokens(u, &pool));
+            let base = render_tokens(&ts, &[]);
+            let strays = ["\u{b}", "\u{85}", "\u{a0}", "\u{2028}", "\u{2029}", "\u{3000}", "\u{1680}", "\u{200b}", "\u{0}", "@", ";", "\u{1c}", "\u{feff}"];
+            let (mut prefix, mut suffix) = (String::new(), String::new());
+            match u.below(3) {
+                0 => suffix = u.pick(&strays).to_string(),
+                1 => prefix = u.pick(&strays).to_string(),
+                _ => {
+                    prefix = u.pick(&strays).to_string();
+                    suffix = u.pick(&strays).to_string();
+                }
+            }
+            // optionally with ordinary whitespace between the expression and the stray character
+            if u.flip() {
+                suffix = format!(" {suffix}");
+            }
+            Case::Warm { base, prefix, suffix }
         },
         check,
     );
